@@ -132,11 +132,17 @@ DecodeStart ==
             /\ UNCHANGED <<pos, lastPic, refPic, sor, dcoll, pstart>> /\ posKnown' = FALSE /\ dead' = TRUE /\ NextLine
        ELSE IF ~HasPic
        THEN \* opaque input: any outcome is allowed, but it must be consistent
-            IF RetClass = "err" THEN RejectedStep("opaque-err")
+            IF RetClass = "err"
+            THEN /\ IF Has("expect") /\ E.expect = "ok"
+                    THEN Diag("IMPL", "rejected-valid-picture", "rejected-valid-" \o E.why, [ret |-> E.ret, why |-> E.why]) ELSE TRUE
+                 /\ RejectedStep("opaque-err")
             ELSE /\ IF Has("expect") /\ E.expect = "err"
                     THEN Diag("IMPL", "accepted-invalid-input", "accepted-" \o E.why, [why |-> E.why])
                     ELSE IF ~(E.has_last /\ YLen = E.w * E.h /\ CLen = ChW(E.w) * ChH(E.h) /\ CrLen = CLen
-                         /\ E.cspr = ChW(E.w) /\ E.last = E.hdr.tr /\ E.w >= 1 /\ E.h >= 1)
+                         /\ E.cspr = ChW(E.w) /\ E.last = E.hdr.tr /\ E.w >= 1 /\ E.h >= 1
+                         \* an input known to be a valid picture must come out with exactly its header's size and fields
+                         /\ ((Has("expect") /\ E.expect = "ok" /\ Has("pic")) =>
+                                (E.w = Dims(E.pic)[1] /\ E.h = Dims(E.pic)[2] /\ E.hdr.tr = E.pic.tr /\ E.hdr.q = E.pic.q /\ E.hdr.pt = E.pic.pt)))
                     THEN Diag("IMPL", "decoded-picture-shape", "decoded-picture-shape", [w |-> E.w, h |-> E.h, ylen |-> YLen, clen |-> CLen, cspr |-> E.cspr])
                     ELSE LET np == PicOf(E)
                              nr == IF E.hdr.pt = "D" THEN refPic ELSE np IN
